@@ -1,6 +1,7 @@
 import MechVerif.Driver.Value
 import MechVerif.Model.RunProgram
 import MechVerif.Model.Const
+import MechVerif.Model.ConstValue
 namespace MechVerif.Driver.S06
 open MechVerif.RunProgram MechVerif.Const MechVerif.Bytecode
 
@@ -52,6 +53,48 @@ def cvBody : CV → String
 
 def bytesOfHex (h : String) : Option (List Crc.Byte) := (unhexBytes h).map (fun b => b.toList.map (fun x => BitVec.ofNat 8 x.toNat))
 
+section compound
+open MechVerif.ConstValue
+
+/-- `Display` of a scalar kind by its tag in the kind codec -/
+def kindNameOfTag : Nat → Option String
+  | 1 => some "u8" | 2 => some "u16" | 3 => some "u32" | 4 => some "u64" | 5 => some "u128"
+  | 6 => some "i8" | 7 => some "i16" | 8 => some "i32" | 9 => some "i64" | 10 => some "i128"
+  | 11 => some "f32" | 12 => some "f64" | 13 => some "c64" | 14 => some "r64" | 15 => some "string" | 16 => some "bool"
+  | _ => none
+
+def vkName : VK → Option String
+  | .simple t => kindNameOfTag t
+  | _ => none
+
+def nvText : NV → Option String
+  | .empty => some "empty"
+  | .scalar v => (kindNameOfTag (tagOfEk v.kind)).map (fun n => n ++ ":" ++ cvBody v)
+
+def sortStr (l : List String) : List String := (l.toArray.qsort (· < ·)).toList
+
+/-- canonical text of a set or table constant as the model decodes its payload; `none` when the payload
+    uses something the model does not cover (then the loader's own decoding is taken as observed) -/
+def decodeCompound (tag : String) (bs : List Crc.Byte) : Option String :=
+  if tag == "Set" then
+    match decodeSet bs with
+    | none => some "undecodable"
+    | some s =>
+      (match vkName s.kind, s.elems.mapM nvText with
+       | some k, some els => some ("set:" ++ k ++ ":n" ++ toString s.count ++ ":{" ++ "|".intercalate (sortStr els) ++ "}")
+       | _, _ => none)
+  else if tag == "Table" then
+    match decodeTable bs with
+    | none => some "undecodable"
+    | some t =>
+      let cols := t.columns.mapM (fun c =>
+        match vkName c.kind, c.data.mapM nvText, String.fromUTF8? (ByteArray.mk (c.name.map (fun x => UInt8.ofNat x.toNat)).toArray) with
+        | some k, some vs, some nm => some (nm ++ "<" ++ k ++ ">=" ++ ",".intercalate vs)
+        | _, _, _ => none)
+      cols.map (fun cs => "table:" ++ toString t.rows ++ "x" ++ toString t.cols ++ ":[" ++ ";".intercalate cs ++ "]")
+  else none
+end compound
+
 /-- the canonical text the model's decoder gives for a raw constant, when it models the tag -/
 def decodeRaw (tag hex : String) : Option String :=
   match bytesOfHex hex with
@@ -69,7 +112,7 @@ def decodeRaw (tag hex : String) : Option String :=
              some (s!"mat:{name}:{m.rows}x{m.cols}:[" ++ " ".intercalate (m.data.map cvBody) ++ "]")
            | _ => some "undecodable")
         | none => none
-      else none
+      else decodeCompound tag bs
 
 def simpleProgram (src : String) : Bool :=
   let cs := src.toList
